@@ -187,6 +187,11 @@ pub fn run_c21(ctx: &mut Ctx) {
         for c in 0..chunks {
             let cid = DIRECTED | id;
             id += 1;
+            // the 268 M four-byte encodings are sampled: one sixteenth of the chunks, chosen by the seed
+            let sampled = len == 4;
+            if sampled && c % 16 != ctx.seed % 16 {
+                continue;
+            }
             if !ctx.want(cid) {
                 continue;
             }
@@ -199,7 +204,7 @@ pub fn run_c21(ctx: &mut Ctx) {
                 b.push(0x7e); // a trailing byte that must not be consumed
                 check_varint_bytes(ctx, &b);
             }
-            ctx.add("exhaustive_encodings", total * (c + 1) / chunks - total * c / chunks);
+            ctx.add(if sampled { "sampled_four_byte_encodings" } else { "exhaustive_encodings" }, total * (c + 1) / chunks - total * c / chunks);
             ctx.nontrivial_enumerated(total * (c + 1) / chunks - total * c / chunks);
         }
     }
@@ -223,7 +228,7 @@ pub fn run_c21(ctx: &mut Ctx) {
         }
     }
     // encoder: exhaustive small magnitudes, all width boundaries, random 56-bit values
-    let span: i64 = if miri { 300 } else if ctx.thorough() { 1 << 27 } else { 1 << 20 };
+    let span: i64 = if miri { 300 } else if ctx.thorough() { 1 << 23 } else { 1 << 20 };
     for c in 0..64i64 {
         let cid = DIRECTED | id;
         id += 1;
